@@ -25,14 +25,52 @@ def build(profile='release', extra_env=None, target_sub='libmon', cargo_args=Non
 
 
 def run_bin(bindir, name, args, timeout=3600, env=None):
-    """returns (records, returncode, stderr tail)"""
-    p = subprocess.run([os.path.join(bindir, name)] + list(args), stdout=subprocess.PIPE, stderr=subprocess.PIPE, text=True, timeout=timeout, env=env)
+    """returns (records, returncode, stderr tail); a watchdog timeout gives returncode 'timeout' (inconclusive, never a violation)"""
+    try:
+        p = subprocess.run([os.path.join(bindir, name)] + list(args), stdout=subprocess.PIPE, stderr=subprocess.PIPE, text=True, timeout=timeout, env=env)
+        out, rc, err = p.stdout, p.returncode, p.stderr
+    except subprocess.TimeoutExpired as e:
+        out = e.stdout.decode('utf-8', 'replace') if isinstance(e.stdout, bytes) else (e.stdout or '')
+        rc, err = 'timeout', 'watchdog: no result within %ds' % timeout
     recs = []
-    for line in p.stdout.splitlines():
+    for line in out.splitlines():
         line = line.strip()
         if line.startswith('{'):
             try:
                 recs.append(json.loads(line))
             except ValueError:
                 pass
-    return recs, p.returncode, p.stderr[-2000:]
+    return recs, rc, err[-2000:]
+
+
+def run_bin_sharded(bindir, name, args, nshards=None, timeout=3600, env=None):
+    """the monitor binary as `nshards` OS processes (--shard=i --nshards=n), results merged: numeric fields of the statistics
+    records are summed, violation records concatenated (de-duplicated), `done` only if every shard finished"""
+    from concurrent.futures import ThreadPoolExecutor
+    nshards = nshards or core.NCPU
+    with ThreadPoolExecutor(max_workers=nshards) as ex:
+        res = list(ex.map(lambda i: run_bin(bindir, name, list(args) + ['--shard=%d' % i, '--nshards=%d' % nshards], timeout, env), range(nshards)))
+    stats, viols, seen = {}, [], set()
+    done = True
+    rcs, errs = [], []
+    for recs, rc, err in res:
+        rcs.append(rc)
+        if err.strip():
+            errs.append(err)
+        if not any(r.get('done') for r in recs):
+            done = False
+        for r in recs:
+            if r.get('violation'):
+                k = json.dumps(r, sort_keys=True)
+                if k not in seen:
+                    seen.add(k)
+                    viols.append(r)
+            elif not r.get('done'):
+                for k, v in r.items():
+                    if isinstance(v, (int, float)) and not isinstance(v, bool):
+                        stats[k] = stats.get(k, 0) + v
+                    else:
+                        stats.setdefault(k, v)
+    out = ([stats] if stats else []) + viols + ([{'done': True}] if done else [])
+    bad = [rc for rc in rcs if rc != 0]
+    return out, (bad[0] if bad else 0), '\n'.join(errs)[-2000:]
